@@ -87,6 +87,7 @@ def patch_backup_utils():
 
     backup_utils._sqlite_backup = dump  # pylint: disable=protected-access
     _PATCHED['cls'] = make_manager_class(backup_utils)
+    _PATCHED['real'] = rsyncsim.make_real_manager_class(backup_utils)
     return backup_utils, _PATCHED['cls']
 
 
@@ -146,6 +147,9 @@ def generate(prop, seed, tier='quick'):
         'pool': pool,
         'ops': pre_ops,
         'actors': actors,
+        # a few runs use the real /usr/bin/rsync and coreutils instead of the in-process copier (one scheduling point per
+        # external call): nothing about the external programs is modelled there
+        'real_rsync': rng.random() < (0.04 if tier == 'quick' else 0.15),
         'policy': gen_policy(rng, freeze_roles=('packer', 'packer', 'packer', 'backup', 'backup', 'writer')),
         'decisions': None,
     }
@@ -183,7 +187,10 @@ def packwriter_main(world, side, shared, spec, lib):
 
 def verify_backup(lib, world, folder, must_have, universe, label):
     """The backup folder is a valid container holding at least ``must_have`` (key -> bytes)."""
-    problems, observed = rawread.verify(folder, model=None)
+    try:
+        problems, observed = rawread.verify(folder, model=None)
+    except rawread.LayoutBroken as exc:
+        raise Violation('backup:layout-broken', f'{label}: the backup is not a container: {exc}') from None
     if problems:
         raise Violation('backup:' + problems[0].split(' ')[0], f'{label}: ' + '; '.join(problems[:4]))
     for key in must_have:
@@ -226,6 +233,8 @@ def execute(case):  # pylint: disable=too-many-locals,too-many-statements,too-ma
     _FakeDatetimeCls.counter = 0
     _TempDir.counter = 0
     backup_utils.random = random.Random(seed + 5)
+    if case.get('real_rsync') and os.path.exists('/usr/bin/rsync'):
+        manager_cls = _PATCHED['real']  # the real programs, at phase granularity
     manager_cls.stats = None
     rsyncsim.CLOCK.reset()
     result = {'ok': True, 'violation': None, 'error': None}
@@ -368,7 +377,7 @@ def execute(case):  # pylint: disable=too-many-locals,too-many-statements,too-ma
         if world is not None:
             world.close_all()
         decisions = sched.decisions if sched else []
-        stats = manager_cls.stats or {}
+        stats = (_PATCHED['real'].stats if case.get('real_rsync') and _PATCHED.get('real') is not None and _PATCHED['real'].stats else manager_cls.stats) or {}
         result.update(
             {
                 'digest': digest,
@@ -378,7 +387,7 @@ def execute(case):  # pylint: disable=too-many-locals,too-many-statements,too-ma
                 'behaviour': hashlib.sha1(json.dumps(decisions).encode()).hexdigest()[:16],
                 'ops': {'backups': len(backups)},
                 'faults': {'rsync_vanished_file': stats.get('vanished', 0)},
-                'probes': dict(probes, rsync_copied=stats.get('copied', 0), rsync_linked=stats.get('linked', 0), rsync_skipped=stats.get('skipped', 0), scheduling_decisions=len(decisions)),
+                'probes': dict(probes, rsync_copied=stats.get('copied', 0), rsync_linked=stats.get('linked', 0), rsync_skipped=stats.get('skipped', 0), scheduling_decisions=len(decisions), real_rsync_runs=int(bool(case.get('real_rsync'))), rsync_calls=stats.get('calls', 0)),
                 'kinds': dict(SIM.kinds),
                 'decisions': decisions if not result['ok'] else None,
             }
